@@ -208,20 +208,20 @@ def _(c): _run(c).text = "tab\there\x07bell"
 
 
 # ---------------------------------------------------------------- fill / line / shadow / geometry
-@op("fill.solid_rgb", FILLY)
+@op("fill.solid_rgb", FILLY, clr=["radial"])
 def _(c):
     c.sh.fill.solid()
     c.sh.fill.fore_color.rgb = RGBColor(1, 2, 3)
 
 
-@op("fill.solid_theme", FILLY)
+@op("fill.solid_theme", FILLY, clr=["radial"])
 def _(c):
     c.sh.fill.solid()
     c.sh.fill.fore_color.theme_color = MSO_THEME_COLOR.ACCENT_1
     c.sh.fill.fore_color.brightness = 0.4
 
 
-@op("fill.gradient", FILLY)
+@op("fill.gradient", FILLY, clr=["radial"])
 def _(c):
     f = c.sh.fill
     f.gradient()
@@ -230,7 +230,29 @@ def _(c):
     f.gradient_stops[0].position = 0.25
 
 
-@op("fill.patterned", FILLY)
+@op("fill.authored_radial_gradient", FILLY, set_=["radial"])
+def _(c):
+    # not an API call: the fill as PowerPoint writes a radial ("path") gradient, put into the shape's spPr with lxml - python-pptx
+    # itself only makes linear gradients
+    from lxml import etree
+    A_ = "http://schemas.openxmlformats.org/drawingml/2006/main"
+    c.sh.fill.gradient()
+    gf = c.sh._element.spPr.find("{%s}gradFill" % A_)
+    for el in gf.findall("{%s}lin" % A_):
+        gf.remove(el)
+    path = etree.fromstring('<a:path xmlns:a="%s" path="circle"><a:fillToRect l="50000" t="50000" r="50000" b="50000"/></a:path>' % A_)
+    tile = gf.find("{%s}tileRect" % A_)
+    if tile is not None:
+        tile.addprevious(path)
+    else:
+        gf.append(path)
+
+
+@op("reject.gradient_angle_on_radial", FILLY, pre=["radial"], rejects=["ValueError"])
+def _(c): c.sh.fill.gradient_angle = 45           # "raises ValueError for a non-linear gradient (e.g. a radial gradient)"
+
+
+@op("fill.patterned", FILLY, clr=["radial"])
 def _(c):
     f = c.sh.fill
     f.patterned()
@@ -239,7 +261,7 @@ def _(c):
     f.back_color.theme_color = MSO_THEME_COLOR.BACKGROUND_1
 
 
-@op("fill.background", FILLY)
+@op("fill.background", FILLY, clr=["radial"])
 def _(c): c.sh.fill.background()
 
 
